@@ -147,7 +147,7 @@ def iterparse_character_subset(s: str, expand_ranges: bool = False) -> Iterator[
             if escaped or (k == length - 1):
                 char = s[k]
                 yield ord(char)
-                escaped = False
+                escaped = on_range = False  # an escaped hyphen can start a new range
             elif on_range:
                 char = s[k]
                 yield ord(char)
